@@ -234,7 +234,48 @@ fn cli_interrupts(rep: &Report, n: usize, seed: u64) {
     rep.count("CLI interrupt-path runs", n as u64);
 }
 
+/// control transfers through the real driver, taken from three flag words, towards every kind of program end: the
+/// target label is the last thing in the file (after an ordinary instruction / after a written hlt), or is followed
+/// by a hlt or a print; free running, single-stepped with -i and single-stepped by the trap flag. Only aborts are judged.
+fn cli_transfers(rep: &Report) {
+    let mut jobs = Vec::new();
+    for j in ALL_JCC {
+        for flags in [0u16, 0x08D5, 0x00C0] {
+            for tail in 0..4usize {
+                for mode in 0..3usize {
+                    jobs.push((j, flags, tail, mode));
+                }
+            }
+        }
+    }
+    let n = jobs.len();
+    par_for(n, 4, |i| {
+        let (j, flags, tail, mode) = jobs[i];
+        let fl = if mode == 2 { flags | 0x0100 } else { flags };
+        let tail_text = ["mov bx, 2\nend:\n", "mov bx, 2\nhlt\nend:\n", "mov bx, 2\nend:\nhlt\n", "mov bx, 2\nend:\nprint reg\n"][tail];
+        let src = format!("start:\nmov cx, 2\nmov ax, {}\npush ax\npopf\n{} end\n{}", fl, j.name(), tail_text);
+        let nexts = b"n\n".repeat(40);
+        let out = run_cli(src.as_bytes(), &CliOpts { interpreted: mode == 1, stdin: if mode == 0 { b"" } else { &nexts }, ..Default::default() });
+        rep.eval(1);
+        rep.distinct_str(&format!("xfer|{}|{}|{}|{}", j.name(), flags, tail, mode));
+        if out.timed_out {
+            rep.inconclusive("cli watchdog");
+            return;
+        }
+        if !out.clean_exit() {
+            rep.fail(Failure {
+                sig: format!("total:transfer-to-program-end:{}:abort", ["free-running", "interpreted", "trap-flag"][mode]),
+                what: format!("C09 CLI: a control transfer towards the end of the program aborts the emulator ({})", out.status_str()),
+                witness: format!("{{\"kind\": \"cli\", \"source\": {}, \"interpreted\": {}, \"status\": {}}}", json_str(&src), mode == 1, json_str(&out.status_str())),
+                core_item: Some(format!("{}|{:?}|{:?}", i, out.code, out.signal)),
+            });
+        }
+    });
+    rep.count("CLI runs of control transfers towards the program end", n as u64);
+}
+
 pub fn run(rep: &Report) {
+    cli_transfers(rep);
     sweep(rep, 13 * 8 * 60, true, 0xC09);
     let t = rep.thorough();
     sweep(rep, if t { 13 * 8 * 20_000 } else { 13 * 8 * 400 }, false, rep.seed ^ 0x90);
